@@ -367,7 +367,9 @@ class TDMProgram(Program):
     @property
     def measured_modes(self):
         """The number of measured modes in the program returned as a list."""
-        return list(self._measured_modes)
+        # sorted, so that entry ``i`` is the measured mode of band ``i`` (a set iterates in hash
+        # order, e.g. ``list({8, 0}) == [8, 0]``)
+        return sorted(self._measured_modes)
 
     @property
     def timebins(self):
